@@ -1763,3 +1763,95 @@ def node_slots(ctx, world):
                 ctx.ob("A2.slot", "VJPNode.__init__: self.parents = parents", True, loc_of(m, fn))
             else:
                 ctx.fail("A2.slot", "VJPNode.parents", "autograd.core.VJPNode.__init__:parents", loc_of(m, fn), "VJPNode does not store the parents it was given", "any graph with more than one node")
+
+
+def notrace_callers(ctx, world):
+    """A6.notrace - declaring a primitive non-differentiable for a node type (register_notrace) makes the wrapper drop
+    every box of that type before the node constructor - and with it the rule lookup that raises for a missing rule -
+    is reached.  It is a declaration about ALL arguments of a function, made by whoever owns the function; the
+    registration API (defvjp, defjvp, def_linear, the node constructors, the wrapper ...) sees one call with some
+    makers and cannot know the arity.  So: inside the kernel modules nothing but the definition itself mentions
+    register_notrace in a function body; every use is a module-level declaration (which the Rule Table reads)."""
+    ctx.describe("A6.notrace", "register_notrace is used only in module-level declarations: no function of the kernel modules (core, tracer, extend, builtins, wrap_util, util, differential_operators) calls it or hands it on (partial / alias), so no rule registration can switch off the rule lookup - and its `missing rule` error - of a primitive as a side effect")
+    kernel = [m for m in world.repo.mods.values() if not m.name.startswith(("autograd.numpy", "autograd.scipy", "autograd.misc", "autograd.test_util"))]
+    target = "autograd.tracer.register_notrace"
+    m0, fn0 = world.repo.find_def("autograd.tracer", "register_notrace")
+    n_decl = 0
+    for mod in world.repo.mods.values():
+        for x in ast.walk(mod.tree):
+            if not isinstance(x, (ast.Name, ast.Attribute)) or not isinstance(getattr(x, "ctx", None), ast.Load):
+                continue
+            if (x.id if isinstance(x, ast.Name) else x.attr) not in _names_of(world, mod, target):
+                continue
+            r = world.repo.resolve_expr(mod, x)
+            if r is None or getattr(r, "qual", None) != target and getattr(r, "node", None) is not fn0:
+                continue
+            par = getattr(x, "_parent", None)
+            if isinstance(par, ast.Attribute):
+                continue  # the inner part of a longer dotted expression
+            fn = _encl(x)
+            if fn is None:
+                n_decl += 1
+                continue
+            if mod not in kernel:
+                n_decl += 1
+                continue  # a registration helper of a rule module: expanded (or reported undecided) by the Rule Table
+            inst = f"{mod.name}.{getattr(fn, 'name', '<lambda>')}: {norm_text(par if isinstance(par, ast.Call) else x)[:60]}"
+            ctx.fail("A6.notrace", inst, f"{mod.name}.{getattr(fn, 'name', '<lambda>')}|uses-register_notrace", loc_of(mod, x), f"`{norm_text(par if isinstance(par, ast.Call) else x)[:70]}` inside {mod.name}.{getattr(fn, 'name', '<lambda>')}: a kernel function declares primitives non-differentiable at run time - the wrapper then never builds a node for them, every argument silently gets a zero derivative and a missing rule no longer raises", "a user-defined primitive with more arguments than rules (or registered in several calls), differentiated with respect to an argument without a rule")
+    # the table itself: grown by register_notrace only (a kernel function that adds to it directly is the same defect)
+    table = None
+    for x in ast.walk(fn0):
+        if isinstance(x, ast.Call) and isinstance(x.func, ast.Attribute) and x.func.attr in ("add", "update"):
+            b = x.func.value
+            while isinstance(b, (ast.Subscript, ast.Attribute)):
+                b = b.value
+            if isinstance(b, ast.Name):
+                table = b.id
+    if table is None:
+        raise AnalysisError("register_notrace no longer adds to a module-level table: A6.notrace lost its anchor")
+    tq = f"autograd.tracer.{table}"
+    for mod in kernel:
+        for fq, fnode in mod.functions():
+            if fnode is fn0:
+                continue
+            for x in ast.walk(fnode):
+                if _encl(x) is not fnode:
+                    continue
+                base = None
+                if isinstance(x, ast.Call) and isinstance(x.func, ast.Attribute) and x.func.attr in ("add", "update", "__setitem__", "setdefault", "__ior__"):
+                    base = x.func.value
+                elif isinstance(x, (ast.Assign, ast.AugAssign)):
+                    for t in x.targets if isinstance(x, ast.Assign) else [x.target]:
+                        if isinstance(t, ast.Subscript):
+                            base = t
+                if base is None:
+                    continue
+                while isinstance(base, ast.Subscript):
+                    base = base.value
+                if not isinstance(base, (ast.Name, ast.Attribute)):
+                    continue
+                r = world.repo.resolve_expr(mod, base)
+                if r is not None and getattr(r, "qual", None) == tq:
+                    ctx.fail("A6.notrace", f"{fq}: {norm_text(x)[:60]}", f"{fq}|grows-notrace-table", loc_of(mod, x), f"`{norm_text(x)[:70]}` in {fq} adds to the table of non-differentiable primitives outside register_notrace", "a user-defined primitive with more arguments than rules, differentiated with respect to an argument without a rule")
+    ctx.ob("A6.notrace", f"no kernel function mentions register_notrace or grows {tq}; {n_decl} module-level declaration site(s)", True, "autograd/*", nontrivial=True)
+    ctx.floor("A6.notrace declaration sites outside the kernel", n_decl, 2)
+
+
+def _names_of(world, mod, target):
+    """the names under which `target` is visible in `mod` (definition, from-imports with `as`, re-exports)"""
+    cache = world.__dict__.setdefault("_names_of_cache", {})
+    k = (mod.name, target)
+    if k not in cache:
+        short = target.rsplit(".", 1)[1]
+        names = {short}
+        for st in ast.walk(mod.tree):
+            if isinstance(st, ast.ImportFrom):
+                for a in st.names:
+                    if a.name == short and a.asname:
+                        names.add(a.asname)
+            elif isinstance(st, ast.Assign) and isinstance(st.value, (ast.Name, ast.Attribute)) and (st.value.id if isinstance(st.value, ast.Name) else st.value.attr) in names:
+                for t in st.targets:
+                    if isinstance(t, ast.Name):
+                        names.add(t.id)
+        cache[k] = names
+    return cache[k]
